@@ -144,6 +144,17 @@ func genC14(r *Rng, tier string) *World {
 			if r.P(0.2) {
 				return Val{}, false
 			}
+			if n.Elem.IsPrim() && n.Elem.Kind != "time" && r.P(0.08) {
+				// one scalar where a list is expected (a parameter sent once, possibly blank): boxed - or absent - everywhere alike
+				if r.P(0.4) {
+					return VS(Pick(r, []string{"", " "})), true
+				}
+				sv := genTyped(r, n.Elem.Kind)
+				if sv.K == "s" && strings.TrimSpace(sv.S) == "" {
+					sv = VS("x")
+				}
+				return sv, true
+			}
 			if n.Elem.Kind == "slice" {
 				// a list of lists of scalars (JSON documents and Go values only)
 				l := VL()
@@ -230,6 +241,15 @@ func genC14(r *Rng, tier string) *World {
 			}
 			if e, ok := f.Tag("json"); ok && e == "" {
 				continue
+			}
+			isList := false
+			for i := range in.M {
+				if in.M[i].K == f.Key && in.M[i].V.K == "l" {
+					isList = true
+				}
+			}
+			if !isList {
+				continue // (a scalar sent under `key[]` is a one-element list there and a scalar elsewhere: not one record)
 			}
 			var keep []KV
 			for _, t := range f.Tags {
@@ -623,7 +643,8 @@ func envRecord(r *Rng, root *Node) Val {
 		if r.P(0.3) {
 			continue
 		}
-		m.M = append(m.M, KV{f.Key, VS(Pick(r, []string{"1", "abc", " ", "", "true", "1e999", "NaN", "\xff\xfe", "2024-01-01T00:00:00Z", " 12 ", "a,b", "[1]", "{}", "-0"}))})
+		m.M = append(m.M, KV{f.Key, VS(Pick(r, []string{"1", "abc", " ", "", "true", "1e999", "NaN", "\xff\xfe", "2024-01-01T00:00:00Z", " 12 ", "a,b", "[1]", "{}", "-0",
+			"\"", "'", "\"\"", "\"x", " \" ", "$", "${", "=", "\n", "a\nb", "#", "\\"}))})
 	}
 	return m
 }
